@@ -26,6 +26,34 @@ CHECKS = {
         "Trusted: harness/refclient.py event derivation; removal-by-criteria semantics as implemented by the documented keyword interface.",
         "DESIGN.md section 4, C16",
     ),
+    "C17": (
+        "exploration",
+        "exhaustive virtual-time grid enumeration (arrival instants x match patterns x timeout x polling x condition x event kind) on a deterministic virtual-clock loop + Hypothesis finer grids / concurrent waits, analytic oracle",
+        "Schedule search with the harness owning the clock: every placement of <= 2 (quick) / <= 3 (thorough) events on an 11-point grid "
+        "with every timeout, polling setting, condition and event kind runs against the real waitforevent on a virtual-time event loop; "
+        "the oracle is analytic (first matching event object of a probe's log, completion instant, polling tick instants, callback "
+        "baseline). Exhaustive inside the grid, exploration beyond; ties with the timeout instant are excluded as stated.",
+        "Trusted: harness/net.py VirtualLoop (timers fire in order at their own instant, nothing else advances time).",
+        "DESIGN.md section 4, C17",
+    ),
+    "C18": (
+        "fault_enumeration",
+        "exhaustive fault kind x step index x victim x transport enumeration over a script catalogue + Hypothesis scripts, on real TCP/TTY handlers over fake streams; cleanliness invariants + policy-aware delivery oracle",
+        "Fault enumeration: six ways a connection can end are injected at every step of session scripts, for every victim, on both server "
+        "transports; afterwards the router's public state, the handler task, the writer and a delivery spy must show the victim gone, "
+        "every bystander must receive exactly the later traffic its policy admits, and a newcomer must start from defaults.",
+        "Trusted: fake streams as the model of sockets/stdio (EOF, read/write errors); harness/session.py.",
+        "DESIGN.md section 4, C18",
+    ),
+    "C19": (
+        "exploration",
+        "exhaustive DFS over every completion order of pending write/flush/drain awaitables (Explorer) for 1-3 TCP/TTY/client connections and bursts <= 4/5 + Hypothesis bursts, byte-exact output oracle",
+        "Schedule search with the harness owning the I/O completion order: the Explorer re-executes each scenario for every choice prefix, so "
+        "all release orders (including a connection that never completes) are enumerated; each connection's output must be byte-identical "
+        "to the concatenation of the routed messages in routing order. Exhaustive inside the bounds, Hypothesis beyond.",
+        "Trusted: the fake-stream model (synchronous StreamWriter.write, arbitrary completion order of outstanding aiofiles calls).",
+        "DESIGN.md section 4, C19",
+    ),
     "C20": (
         "exploration",
         "Hypothesis-generated messages x exhaustive single-point perturbation, structural-view oracle",
